@@ -128,10 +128,12 @@ func vpH_C17_zero() {
 
 func vpH_C17_nil() {
 	vpAssert("nil-nil", !ItemOrderTimestamp(nil, nil))
-	var tn *Object
+	k := 1 + vpChoice(vpNilKindCount()-2) // a nil pointer of every object-shaped type (all but Link)
+	tn := vpNilOfKind(k)
 	a, _ := vpC17Object(0)
-	vpAssert("typed-nil-first", ItemOrderTimestamp(tn, a))
-	vpAssert("typed-nil-not-after", !ItemOrderTimestamp(a, tn))
+	vpAssert("typed-nil-first/"+vpNilKindName(k), ItemOrderTimestamp(tn, a))
+	vpAssert("typed-nil-not-after/"+vpNilKindName(k), !ItemOrderTimestamp(a, tn))
+	vpAssert("typed-nil-vs-nil/"+vpNilKindName(k), !ItemOrderTimestamp(tn, nil) && !ItemOrderTimestamp(nil, tn))
 	vpReach("end")
 }
 
